@@ -170,7 +170,8 @@ def scenario_solver(env, cfg):
         for i in range(n):
             b = rhs.flat[i] - float(vd[i])
             conds.append(abs(lap.data.flat[i] - rhs.flat[i]) <= 1e-5 + 1e-5 * abs(b) + 1e-6)
-        env.prove("laplace(returned-field)=rhs-to-solver-accuracy", O.land(*conds))
+        for i, cond in enumerate(conds):  # (one query per cell: much faster than the conjunction)
+            env.prove(f"laplace(returned-field)=rhs-to-solver-accuracy:cell{i}", cond)
     env.reach()
 
 
